@@ -198,11 +198,14 @@ func Run(args []string) *rep.Report {
 						bad(k, tc, fmt.Sprintf("%q -> %s -> %q (path %q -> %q)", u.String(), ma, back.String(), u.Path, back.Path))
 					}
 					// the tls/http spelling of the same endpoint is https
+					// ... also with the server name between the two components (the form libp2p's HTTP host announces)
 					if u.Scheme == "https" {
-						alt := strings.Replace(ma.String(), "/https", "/tls/http", 1)
-						if am, err := multiaddr.NewMultiaddr(alt); err == nil {
-							if b2, err := maurl.ToURL(am); err != nil || b2.Scheme != "https" || b2.Host != back.Host || b2.Path != back.Path {
-								bad("tls-http-not-https", tc, fmt.Sprintf("%s -> %v (%v)", alt, b2, err))
+						for _, spelling := range []string{"/tls/http", "/tls/sni/example.net/http"} {
+							alt := strings.Replace(ma.String(), "/https", spelling, 1)
+							if am, err := multiaddr.NewMultiaddr(alt); err == nil {
+								if b2, err := maurl.ToURL(am); err != nil || b2.Scheme != "https" || b2.Host != back.Host || b2.Path != back.Path {
+									bad("tls-http-not-https", tc, fmt.Sprintf("%s -> %v (%v)", alt, b2, err))
+								}
 							}
 						}
 					}
@@ -284,6 +287,33 @@ func Run(args []string) *rep.Report {
 				}
 				if len(l) > 1 && mautil.MultiaddrsEqual(cp(), cp()[:len(l)-1]) {
 					bad("multiaddrs-equal", tc, "a list and its strict prefix reported equal")
+				}
+				// long lists with duplicates: equality is equality of multisets -- the same addresses with other multiplicities
+				// (and the same length) are different lists, a rotation of the same list is the same list
+				if len(l) > 1 && !l[0].Equal(l[1]) {
+					var la, lb []multiaddr.Multiaddr
+					for i := 0; i < 11; i++ {
+						if i < 6 {
+							la = append(la, l[0])
+						} else {
+							la = append(la, l[1])
+						}
+						if i < 5 {
+							lb = append(lb, l[0])
+						} else {
+							lb = append(lb, l[1])
+						}
+					}
+					for _, x := range l[2:] {
+						la, lb = append(la, x), append(lb, x)
+					}
+					rot := append(append([]multiaddr.Multiaddr(nil), la[4:]...), la[:4]...)
+					if mautil.MultiaddrsEqual(append([]multiaddr.Multiaddr(nil), la...), append([]multiaddr.Multiaddr(nil), lb...)) {
+						bad("multiaddrs-equal", tc, fmt.Sprintf("lists of %d entries over the same addresses with different multiplicities reported equal", len(la)))
+					}
+					if !mautil.MultiaddrsEqual(append([]multiaddr.Multiaddr(nil), la...), rot) {
+						bad("multiaddrs-equal", tc, fmt.Sprintf("a list of %d entries and its rotation reported different", len(la)))
+					}
 				}
 			}
 		})
